@@ -403,13 +403,22 @@ Definition model_extract (szs : list Z) (vals : list (list Z)) (stranded : bool)
                            if stranded && negb (e_fwd e) then rev row else row) es)
   end.
 (* sequence under intervals: per-chromosome lookup (dict / indexed FASTA), reverse complement on '-'.
-   The strand selection is npstructures' np.where on a ragged array, which broadcasts the per-row mask
-   only when mask.size < data.size: with as many rows as bases (every interval of length 1) it fails. *)
-Definition model_seq (vals : list (list Z)) (stranded : bool) (es : list entry) : res :=
+   [model_seq_pinned] — HISTORY, the code before the repair notes/C14.fix-2.final.diff: the strand selection handed
+   npstructures' np.where a column mask `(strand == '+')[:, np.newaxis]`, which is broadcast over the rows only when
+   mask.size < data.size: with at least as many rows as bases (e.g. every interval of length 1) the call failed.
+   [model_seq] — the code in force: GenomicSequence.extract_intervals builds the ragged mask itself
+   (sequence.dna.broadcast_row_mask), so the row-wise choice happens for every shape (the mask expression is regenerated
+   and tied in Bridge/C14.v: gen_genomic_mask, b_stranded_genomic_full). *)
+Definition model_seq_pinned (vals : list (list Z)) (stranded : bool) (es : list entry) : res :=
   let rows := map (fun e => slice (e_start e) (e_stop e) (nthd [] vals (e_chr e))) es in
   if stranded && (len (concat rows) <=? len rows) then RErr E_ATTR
   else RRows (map (fun e => let row := slice (e_start e) (e_stop e) (nthd [] vals (e_chr e)) in
                             if stranded && negb (e_fwd e) then revcomp row else row) es).
+Definition model_seq (vals : list (list Z)) (stranded : bool) (es : list entry) : res :=
+  let rows := map (fun e => slice (e_start e) (e_stop e) (nthd [] vals (e_chr e))) es in
+  let rc := map revcomp rows in
+  RRows (map (fun p : bool * (list Z * list Z) => if fst p then fst (snd p) else snd (snd p))
+             (combine (map (fun e => negb stranded || e_fwd e) es) (combine rows rc))).
 
 (* ---------- coordinates ---------- *)
 Definition model_coords (szs : list Z) : res :=
